@@ -4,4 +4,4 @@ Require Import ExtrOcamlBasic.
 Definition run_src := run_seq src_cfg.
 Definition run_steps_src := run_steps src_cfg.
 Definition child_scoped_src := fluent_child_scoped src_cfg.
-Extraction "pipeline_model.ml" run_src run_steps_src child_scoped_src prop_c01_b prop_c01_which which_steps apply_edit inline all_accept.
+Extraction "pipeline_model.ml" run_src run_steps_src child_scoped_src prop_c01_b prop_c01_which which_steps apply_edit inline all_accept forget forget_l.
